@@ -1115,6 +1115,14 @@ def _run(ctx, pool, res):
                 add_violation(res, seen, "C10", "fault_accepted_no_production_task", "a text without any task (no productionTask) is not reported: valid=%r messages=%d" % (rv["valid"], len(rv["errs"])), text)
             elif not any(e["line"] == 1 for e in rv["errs"]):
                 add_violation(res, seen, "C19", "line_outside_construct_no_production_task", "the whole-file message of a text without tasks carries lines %r, not line 1" % [e["line"] for e in rv["errs"]], text)
+    # directed: texts that happen to name something in the file system (the Scheduler takes a path or a program text)
+    if prop == "C16":
+        for text in ["/", ".", "..", "./", "/tmp", " ", "\t", "\x00", "~", "temp"]:
+            inert = pool.apply(check_inert, (text,))
+            n_eval += 1
+            distinct.add(hashlib.sha256(text.encode()).hexdigest())
+            if inert:
+                add_violation(res, seen, "C16", "invalid_not_inert", "invalid program %r but %s" % (text, inert), text)
     nonstruct = pool.map(job_nonstruct, [(seed * 37 + i,) for i in range(40 if quick else 400)]) if prop in ("C10", "C16", "C19") else []
     for r in nonstruct:
         n_eval += 1
